@@ -337,4 +337,57 @@ Section Cor.
     apply resolve_none. destruct H as [[H1 H2]|[H1 H2]]; [left|right; left]; auto.
   Qed.
 
+  (* ---- C09 / C11 on the list model: frames ---- *)
+  Definition is_observer (o : op V) : bool :=
+    match o with
+    | OLen | OIndex _ | OFront | OBack | OIsEmpty | OCap | OAvail | OIsFull
+    | OCanNest | OIsNesting | OIsFIFO | OGetOpt _ | OErrIsNil => true
+    | _ => false
+    end.
+
+  (* a query returns the state it was given, whatever that state is *)
+  Lemma observer_frame (r r' : raw V) o x :
+    is_observer o = true -> step r o = Ok (r', x) -> r' = r.
+  Proof.
+    intros Ho. destruct o; try discriminate; unfold StackImpl.step, bind;
+      destruct (config V r) as [c| |]; try discriminate;
+      repeat match goal with
+             | |- context [match ?X with Ok _ => _ | Panic => _ | Unmodelled => _ end] => destruct X as [[? ?]| |]
+             end; intros H; inversion H; reflexivity.
+  Qed.
+
+  (* while read-only, every mutator (all but the flag itself) returns the
+     state unchanged and reports failure / nothing *)
+  Lemma ro_frame c els o :
+    has (k_opt c) f_ronly = true ->
+    match o with OSetOpt f _ => f <> f_ronly | _ => True end ->
+    is_observer o = false ->
+    exists x, step (mk c els) o = Ok (mk c els, x).
+  Proof.
+    intros Hro Hf Ho.
+    assert (R : positive c c_ronly = true) by exact Hro.
+    destruct o; try discriminate; cbn [StackImpl.step config StackRefine.mk bind]; fold (mk c els); rewrite ?R, ?orb_true_r;
+      try (eexists; reflexivity).
+    (* OSetOpt *)
+    unfold set_state. rewrite R. cbn [negb orb]. change c_ronly with f_ronly.
+    destruct (N.eqb_spec f f_ronly); [contradiction|].
+    cbn [set_config StackRefine.mk]. eexists. reflexivity.
+  Qed.
+
+  (* clearing the flag restores mutability with the state exactly as it was *)
+  Lemma ro_roundtrip c els :
+    exists c1 c2,
+      step (mk c els) (OSetOpt f_ronly (Some true)) = Ok (mk c1 els, RUnit) /\
+      step (mk c1 els) (OSetOpt f_ronly (Some false)) = Ok (mk c2 els, RUnit) /\
+      k_opt c2 = N.ldiff (k_opt c) f_ronly /\
+      k_typ c2 = k_typ c /\ k_cap c2 = k_cap c /\ k_ord c2 = k_ord c /\ k_err c2 = k_err c /\ k_ppf c2 = k_ppf c.
+  Proof.
+    eexists _, _. cbn [StackImpl.step config StackRefine.mk bind set_config]. unfold set_state.
+    change c_ronly with f_ronly. rewrite N.eqb_refl, !orb_true_r.
+    split; [reflexivity|]. cbn [with_opt k_opt]. split; [reflexivity|].
+    cbn [k_opt k_typ k_cap k_ord k_err k_ppf with_opt]. unfold g_flag_unshift, g_flag_shift.
+    repeat split. apply N.bits_inj. intros n. rewrite !N.ldiff_spec, N.lor_spec.
+    destruct (N.testbit (k_opt c) n), (N.testbit f_ronly n); reflexivity.
+  Qed.
+
 End Cor.
